@@ -1,6 +1,7 @@
 import LekkerVerif.Proofs.KernelTie
 import LekkerVerif.Core.RefineAdd
 import LekkerVerif.Core.Batch
+import LekkerVerif.Core.Defined
 
 /-! # C18 — the star-product kernel is the exact elimination of the shared ports
 
@@ -77,6 +78,22 @@ theorem C18_exec_refines {K : Type} [Field K] [DecidableEq K] (A B C : SMat K) (
     C.toSM A.N B.M = Generated.add (A.toSM A.N A.M) (B.toSM A.M B.M) := by
   obtain ⟨h1, _, _, h4, h5, h6⟩ := SMat.add?_spec A B C hA hB h
   exact ⟨h1, h4, h5, by rw [Generated.add_eq]; exact h6⟩
+
+/-- **definedness** of the executable twin: on well-formed operands `add?` returns a result exactly when the
+dimension guard holds and the inner system is invertible (Gauss–Jordan finds the inverse whenever it exists) -/
+theorem C18_defined_iff {K : Type} [Field K] [DecidableEq K] (A B : SMat K) (hA : A.WF) (hB : B.WF) :
+    (∃ C, A.add? B = .ok C) ↔
+      (A.M = B.N ∧ IsUnit (1 - (A.toSM A.N A.M).S12 * (B.toSM A.M B.M).S21)) :=
+  SMat.add?_ok_iff A B hA hB
+
+/-- the two ways the kernel can fail, and exactly when: `dimension` iff the guard is violated, `singular` iff the
+guard holds and the inner system has no inverse; there is no third failure -/
+theorem C18_failure_cases {K : Type} [Field K] [DecidableEq K] (A B : SMat K) (hA : A.WF) (hB : B.WF) :
+    (A.add? B = .error .dimension ↔ A.M ≠ B.N) ∧
+    (A.add? B = .error .singular ↔
+      (A.M = B.N ∧ ¬ IsUnit (1 - (A.toSM A.N A.M).S12 * (B.toSM A.M B.M).S21))) ∧
+    (∀ e, A.add? B = .error e → e = .dimension ∨ e = .singular) :=
+  ⟨SMat.add?_dimension_iff A B, SMat.add?_singular_iff A B hA hB, fun e h => SMat.add?_error_cases A B e h⟩
 
 /-- a batched join equals the join of each slice (the model of numpy's leading sweep axis) -/
 theorem C18_batch {K : Type} [Scalar K] (As Bs Cs : List (SMat K)) (hl : As.length = Bs.length)
